@@ -631,9 +631,7 @@ C_____________COMPUTE THETP, PHIP, THETP1, AND PHIP1, EQS. (8), (19), AND (20)
       THETP=DACOS(CTP)
       CPP=CB*ST*CP-SB*CT
       SPP=ST*SP
-      PHIP=DATAN(SPP/CPP)
-      IF (PHIP.GT.0D0.AND.SP.LT.0D0) PHIP=PHIP+PIN
-      IF (PHIP.LT.0D0.AND.SP.GT.0D0) PHIP=PHIP+PIN
+      PHIP=DATAN2(SPP,CPP)
       IF (PHIP.LT.0D0) PHIP=PHIP+2D0*PIN
 
       CT1=DCOS(THETL1)
@@ -644,9 +642,7 @@ C_____________COMPUTE THETP, PHIP, THETP1, AND PHIP1, EQS. (8), (19), AND (20)
       THETP1=DACOS(CTP1)
       CPP1=CB*ST1*CP1-SB*CT1
       SPP1=ST1*SP1
-      PHIP1=DATAN(SPP1/CPP1)
-      IF (PHIP1.GT.0D0.AND.SP1.LT.0D0) PHIP1=PHIP1+PIN
-      IF (PHIP1.LT.0D0.AND.SP1.GT.0D0) PHIP1=PHIP1+PIN
+      PHIP1=DATAN2(SPP1,CPP1)
       IF (PHIP1.LT.0D0) PHIP1=PHIP1+2D0*PIN
 
 C____________COMPUTE MATRIX BETA, EQ. (21)
